@@ -11,6 +11,7 @@ import (
 	"github.com/xelaj/mtproto/internal/transport"
 	"github.com/xelaj/mtproto/zverif/enum"
 	"github.com/xelaj/mtproto/zverif/ref/mtp1"
+	"github.com/xelaj/mtproto/zverif/sched"
 	"github.com/xelaj/mtproto/zverif/vr"
 )
 
@@ -223,6 +224,53 @@ func main() {
 		}
 	}
 
+	// ---- history on ONE transport object: the session parameters change between writes (salt rotation, new
+	// session id, seq_no advancing, even a new key); every packet must carry the values current at its write
+	for _, hist := range [][]informator{
+		{{key: authKeys[0], salt: 0x1111, session: 5, seq: 0}, {key: authKeys[0], salt: 0x2222, session: 5, seq: 2}, {key: authKeys[0], salt: 0x2222, session: 5, seq: 4}},
+		{{key: authKeys[0], salt: 1, session: 5, seq: 0}, {key: authKeys[0], salt: 1, session: 6, seq: 0}, {key: authKeys[0], salt: 2, session: 6, seq: 2}},
+		{{key: authKeys[0], salt: 1, session: 5, seq: 0}, {key: authKeys[3], salt: 1, session: 5, seq: 2}, {key: authKeys[0], salt: 3, session: 5, seq: 4}, {key: authKeys[3], salt: 4, session: 7, seq: 6}},
+	} {
+		id := fmt.Sprintf("transport-history %d steps", len(hist))
+		conn := &memConn{r: bytes.NewReader(nil)}
+		inf := &informator{}
+		var t transport.Transport
+		var err error
+		p, pm, fr := vr.Try(func() { t, err = transport.VerifNewTransport(inf, conn, mode.Intermediate) })
+		if p || err != nil {
+			run.Violation("transport-history|setup|"+vr.MsgClass(pm)+fr, id, nil)
+			continue
+		}
+		for step, cur := range hist {
+			*inf = cur
+			conn.w.Reset()
+			body := pat(12+4*step, func(i int) byte { return byte(i + step) })
+			sid := fmt.Sprintf("%s step %d", id, step)
+			p, pm, fr = vr.Try(func() {
+				err = t.WriteMsg(&messages.Encrypted{Msg: body, MsgID: clientID[0] + int64(4*step), AuthKeyHash: mtp1.KeyID(hist[0].key)}, true)
+			})
+			run.Eval(sid, !p && err == nil)
+			if p || err != nil {
+				run.Violation("transport-history|write|"+vr.MsgClass(pm+fmt.Sprint(err))+"|"+fr, sid, nil)
+				break
+			}
+			w := conn.w.Bytes()
+			off := 0 // the announcement went out when the transport was created and was cleared by Reset
+			if len(w) < off+4 {
+				run.Violation("transport-history|framing", sid, nil)
+				break
+			}
+			got, _, oerr := mtp1.Open(cur.key, w[off+4:], 0)
+			want := mtp1.Msg{Salt: cur.salt, Session: cur.session, MsgID: clientID[0] + int64(4*step), SeqNo: cur.seq | 1, Body: body}
+			if oerr != nil {
+				run.Violation("transport-history|server-cannot-open|"+vr.MsgClass(oerr.Error())+fmt.Sprintf("|step>0=%v", step > 0), fmt.Sprintf("%s: %v (packet sealed with parameters of an earlier write?)", sid, oerr), map[string]any{"dir": "transport-history", "step": step})
+			} else if !got.Equal(want) {
+				run.Violation("transport-history|stale-"+diff(got, want), fmt.Sprintf("%s: packet carries %v, the session parameters at this write are %v", sid, got, want), map[string]any{"dir": "transport-history", "step": step})
+			}
+		}
+	}
+	concurrent(run)
+
 	// ---- unencrypted
 	for _, n := range lengths {
 		if n > 2000 {
@@ -285,4 +333,58 @@ func diff(a, b mtp1.Msg) string {
 		s += "body,"
 	}
 	return s
+}
+
+// concurrent: one goroutine seals while another opens and a third seals with another key, under the
+// controlled scheduler; every interleaving at the synchronisation points the code has (none on the unchanged
+// tree) within 2 delays. Key derivation and encryption must not share state between calls.
+func concurrent(run *vr.Run) {
+	keyA, keyB := authKeys[0], authKeys[3]
+	bodyA, bodyB := pat(40, func(i int) byte { return byte(i) }), pat(24, func(i int) byte { return byte(200 - i) })
+	srvMsg := mtp1.Msg{Salt: 9, Session: 8, MsgID: serverID[0], SeqNo: 3, Body: pat(16, func(i int) byte { return byte(i * 9) })}
+	pkt := mtp1.Seal(keyA, srvMsg, make([]byte, mtp1.PadLen(16)), 8)
+	type outcome struct {
+		a, b []byte
+		ea   error
+		eb   error
+		o    *messages.Encrypted
+		eo   error
+	}
+	runOnce := func(prefix []int) (sched.Exec, outcome) {
+		s := sched.New(prefix)
+		s.UnlockYields = true
+		var out outcome
+		s.Go("sealA", func() {
+			out.a, out.ea = (&messages.Encrypted{Msg: bodyA, MsgID: clientID[0]}).Serialize(&informator{key: keyA, salt: 1, session: 2, seq: 0}, true)
+		})
+		s.Go("sealB", func() {
+			out.b, out.eb = (&messages.Encrypted{Msg: bodyB, MsgID: clientID[1]}).Serialize(&informator{key: keyB, salt: 3, session: 4, seq: 2}, false)
+		})
+		s.Go("openA", func() { out.o, out.eo = messages.DeserializeEncrypted(append([]byte{}, pkt...), keyA) })
+		oc := s.Run()
+		return sched.Exec{Points: s.Points, Outcome: oc}, out
+	}
+	var last outcome
+	st := sched.Explore(nil, sched.Bounds{Preemptions: -1, Delays: 3, EnvDev: -1},
+		func(prefix []int) sched.Exec { x, o := runOnce(prefix); last = o; return x },
+		func(choices []int, x sched.Exec) bool {
+			id := fmt.Sprintf("concurrent %v", choices)
+			run.Eval(id, len(choices) > 3)
+			rep := map[string]any{"dir": "concurrent", "choices": choices}
+			o := last
+			ga, _, e1 := mtp1.Open(keyA, o.a, 0)
+			gb, _, e2 := mtp1.Open(keyB, o.b, 0)
+			switch {
+			case o.ea != nil || o.eb != nil || o.eo != nil:
+				run.Violation("concurrent|error", fmt.Sprintf("%s: %v %v %v", id, o.ea, o.eb, o.eo), rep)
+			case e1 != nil || e2 != nil:
+				run.Violation("concurrent|server-cannot-open", fmt.Sprintf("%s: packets sealed concurrently cannot be opened: %v %v", id, e1, e2), rep)
+			case !ga.Equal(mtp1.Msg{Salt: 1, Session: 2, MsgID: clientID[0], SeqNo: 1, Body: bodyA}) || !gb.Equal(mtp1.Msg{Salt: 3, Session: 4, MsgID: clientID[1], SeqNo: 2, Body: bodyB}):
+				run.Violation("concurrent|fields-differ", id, rep)
+			case o.o == nil || o.o.Salt != 9 || !bytes.Equal(o.o.Msg, srvMsg.Body):
+				run.Violation("concurrent|open-differs", id, rep)
+			}
+			return true
+		})
+	run.Set("concurrent_schedules", st.Executions)
 }
